@@ -10,6 +10,7 @@ import json
 
 from checks import connfamily
 from vlib import common, conntrace, simnet
+from vlib.privnames import priv
 
 VFILE = "Properties/C09.v"
 RULE = ("stories = hand-picked same-turn/close-window scenarios + (thorough) every position x every single extra event of base stories "
@@ -90,6 +91,18 @@ def run(rep, tier, seed):
     connfamily.run(rep, tier, seed, "C09", VFILE, RULE)
     run_client_level(rep, tier, seed)
     c = consts()
+    flags = platform_flags()
+    rep.coverage["platform_flags_found"] = [f"{m}.{v}" for m, v, _ in flags]
+    for flip in (False, True):
+        for debug in (False, True):
+            for size in (20, 600, 5000):
+                problems = platform_debug_probe(flip, debug, size)
+                replay = {"kind": "platform-debug", "flip": flip, "debug": debug, "size": size}
+                rep.case(("platform-debug", flip, debug, size), True, sample={"probe": replay, "problems": problems[:3]})
+                rep.bump("probe:platform-debug")
+                if problems:
+                    rep.violation("C09/raw-error", f"{'other-platform branches (' + ', '.join(v for _, v, _ in flags) + ' flipped)' if flip else 'this platform'}, debug logging "
+                                  f"{'on' if debug else 'off'}, messages of {size} bytes: {problems[0]}; {len(problems)} problem(s)", replay)
     for host in ("living-room.local", "living-room", "printer.example.com"):
         for cancel_at in (None, 1.0, 12.0):
             elapsed, out = resolver_hang_probe(host, cancel_at)
@@ -174,6 +187,101 @@ def run(rep, tier, seed):
                     rep.violation("C09/raw-error", f"{where}: finish_connection() ended with {out}", replay)
                 elif elapsed != want:
                     rep.violation("C09/bound", f"{where}: finish_connection() failed after {elapsed} units (1/1024 s), the armed deadline is {want}", replay)
+
+
+def platform_flags():
+    """Module-level names of the library that are computed from the platform (sys.platform / os.name), found in the source:
+    [(module name, variable name, current value)]."""
+    import ast
+    import importlib
+    import pathlib
+    import aioesphomeapi
+    out = []
+    root = pathlib.Path(aioesphomeapi.__file__).parent
+    for f in sorted(root.rglob("*.py")):
+        if f.name.endswith("_pb2.py"):
+            continue
+        try:
+            tree = ast.parse(f.read_text())
+        except SyntaxError:
+            continue
+        for node in tree.body:
+            tgt = None
+            if isinstance(node, ast.Assign) and len(node.targets) == 1 and isinstance(node.targets[0], ast.Name):
+                tgt, val = node.targets[0].id, node.value
+            elif isinstance(node, ast.AnnAssign) and isinstance(node.target, ast.Name) and node.value is not None:
+                tgt, val = node.target.id, node.value
+            if tgt is None:
+                continue
+            src = ast.unparse(val)
+            if "sys.platform" in src or "os.name" in src or "platform.system" in src:
+                modname = "aioesphomeapi." + ".".join(f.relative_to(root).with_suffix("").parts)
+                modname = modname[:-len(".__init__")] if modname.endswith(".__init__") else modname
+                try:
+                    mod = importlib.import_module(modname)
+                except Exception:  # noqa: BLE001
+                    continue
+                if isinstance(getattr(mod, tgt, None), bool):
+                    out.append((modname, tgt, getattr(mod, tgt)))
+    return out
+
+
+def platform_debug_probe(flip, debug, size):
+    """The branches the library takes on another platform (every module-level platform flag flipped), with debug logging on/off, and
+    messages of `size` bytes in both directions: a GATT write with response, a GATT service list, a device-info with long strings.
+    Every call ends with its result; nothing raw escapes; the session survives. Returns the list of problems."""
+    import contextlib
+    import importlib
+    from unittest.mock import patch
+
+    async def go(loop):
+        from aioesphomeapi import api_pb2 as pb
+        net = simnet.Net(loop)
+        problems = []
+        with net.patched():
+            cli, tr = await simnet.connected_client(loop, net)
+            cli.set_debug(debug)
+
+            async def call(name, coro, answers):
+                t = asyncio.ensure_future(coro)
+                await simnet.drain(loop)
+                for a in answers:
+                    if not tr.closing:
+                        r = tr.feed(simnet.plain_msg(a))
+                        if isinstance(r, BaseException):
+                            problems.append(f"{name}: {type(r).__name__}({r}) escaped from data_received while the answer arrived")
+                    await simnet.drain(loop)
+                if not t.done():
+                    await simnet.advance(loop, by=70.0)
+                if not t.done():
+                    t.cancel()
+                    problems.append(f"{name}: still pending after 70 s")
+                elif t.cancelled():
+                    problems.append(f"{name}: cancelled")
+                elif t.exception() is not None:
+                    problems.append(f"{name}: ended with {conntrace.exc_name(t.exception())} instead of its result")
+            await call(f"bluetooth_gatt_write({size} bytes, response=True)", cli.bluetooth_gatt_write(7, 3, bytes(size), True),
+                       [pb.BluetoothGATTWriteResponse(address=7, handle=3)])
+            svc = pb.BluetoothGATTGetServicesResponse(address=7, services=[pb.BluetoothGATTService(uuid=[1, 2], handle=1, characteristics=[
+                pb.BluetoothGATTCharacteristic(uuid=[3, 4 + k], handle=10 + k, properties=2) for k in range(max(1, size // 16))])])
+            await call(f"bluetooth_gatt_get_services (answer of {svc.ByteSize()} bytes)", cli.bluetooth_gatt_get_services(7),
+                       [svc, pb.BluetoothGATTGetServicesDoneResponse(address=7)])
+            await call(f"device_info (answer with a {size}-character string)", cli.device_info(),
+                       [pb.DeviceInfoResponse(name="dev", project_name="p" * size)])
+            if priv(cli, "_connection") is None or not priv(cli, "_connection").is_connected:
+                problems.append("the session did not survive")
+            try:
+                await cli.disconnect(force=True)
+            except Exception:  # noqa: BLE001
+                pass
+            await simnet.drain(loop)
+        return problems
+    with contextlib.ExitStack() as st:
+        if flip:
+            for modname, var, val in platform_flags():
+                st.enter_context(patch.object(importlib.import_module(modname), var, not val))
+        st.enter_context(common.debug_logging(debug))
+        return simnet.run(go)
 
 
 def concurrent_resolve_probe(how):
@@ -402,6 +510,11 @@ def replay(path):
         st = _c06.mk_story(d["major"], d["name"], 1, 1, 1, "HC", 1, "pw")
         print(_c06.outcome_of(_c06.run_plain(st)), _c06.oracle(st["case"]))
         return 0
+    if d.get("kind") == "platform-debug":
+        common.setup_impl_path()
+        problems = platform_debug_probe(d["flip"], d["debug"], d["size"])
+        print(problems)
+        return 1 if problems else 0
     if d.get("kind") == "resolver-hang":
         common.setup_impl_path()
         print(resolver_hang_probe(d["host"], d["cancel_at"]))
